@@ -42,6 +42,10 @@ Definition runs_to (s : mstate) (res : result) : Prop := exists n, run ucd cb pr
 
 End Defs.
 
+(* the frame a `ret` would pop is a call frame *)
+Definition ret_safe (k : list frame) : Prop :=
+  match k with FCall _ :: _ | FLr _ _ _ _ _ _ _ :: _ => True | _ => False end.
+
 (* every code point has a record (C14_indices_in_range establishes it for the shipped tables) *)
 Definition ucd_total (ucd : ucd_table) : Prop := forall r, query ucd r <> None.
 
@@ -51,13 +55,17 @@ Definition ucd_total (ucd : ucd_table) : Prop := forall r, query ucd r <> None.
    - the end of the block with sr advanced, the trace appended to the responses and mr raised to the
      farthest failure offset, the frame stack, call depth and everything else as before, or
    - failure mode with the frame stack exactly as at entry, the responses a prefix-extension of the
-     ones at entry and mr raised to the farthest failure offset. *)
+     ones at entry and mr raised to the farthest failure offset.
+   Side condition [ret_safe]: when the block is immediately followed by a `ret` (so that a trailing call
+   may have been rewritten into a jump), the frame that `ret` pops is a call frame -- always the case
+   in a linked grammar, where rule bodies and repeat subroutines only ever run under a call frame. *)
 Definition stmt_block : Prop :=
   forall (ucd : ucd_table) (cb : callbacks) (prog : list sinstr) (addr : nat -> Z) (inp : list N) (G : nat -> option pexp),
     ucd_total ucd ->
     (forall r body, G r = Some body -> frag body = true /\ at_ prog addr (addr r) (cg body ++ [TI IRet])) ->
     forall p i o, peg ucd inp G p i o -> frag p = true ->
     forall b a k m0 r0 d, base_ok inp b -> at_ prog addr a (cg p) ->
+    (fetch prog (a + len (cg p)) = Some IRet -> ret_safe k) ->
     match o with
     | Succ j t f =>
         exists r', kinds r' = t /\
